@@ -218,11 +218,7 @@ func (vc *VC) evalUnary(s *State, x *ast.UnaryExpr) *Term {
 	case token.AND:
 		return vc.evalAddrOf(s, x)
 	case token.ARROW:
-		// channel receive: unconstrained value
-		vc.eval(s, x.X)
-		vc.prog.Abstracted["channel receive at "+vc.posStr(x.Pos())] = true
-		t := vc.typeOf(x)
-		return vc.loaded(s, t, Fresh("recv", sortOf(t)), "recv")
+		return vc.evalRecv(s, x)
 	}
 	vc.unsupported(x, "unary "+x.Op.String())
 	return nil
